@@ -25,6 +25,9 @@ VPACKS = {
     # the expansion of a verified class brings in further verified classes offering a pack (nested verification)
     "nest13": dict(prefix_verified_nested=(1, 3), no_initial=True), "nest12": dict(prefix_verified_nested=(1, 2), no_initial=True),
     "nest23": dict(prefix_verified_nested=(2, 3), no_initial=True),
+    # the offered pack's own verification strategy verifies the *same* class again (and offers the pack that expands it): the
+    # class must be expanded twice, once per verification strategy
+    "nest11": dict(prefix_verified_nested=(1, 1), no_initial=True), "nest22": dict(prefix_verified_nested=(2, 2), no_initial=True),
     # the original specification already contains a reverse rule (the redundant start class is only the child of a one-way
     # rule) and the verified class needs reverse rules to be expanded
     "redparrev1": dict(redpar=True, prefix_verified_rev=1), "redparrev2": dict(redpar=True, prefix_verified_rev=2),
@@ -136,7 +139,9 @@ def job(cfg):
             if one is not None:
                 ev1["root_new"] = s.namer(one.root)
                 r1 = one.rules_dict.get(target)
-                if isinstance(r1, VerificationRule):
+                # still verified *by the strategy whose pack was used*: a rule of the given pack that verifies the class through
+                # another strategy (nested verification of the same class) is an expansion with that pack
+                if isinstance(r1, VerificationRule) and r1.strategy == spec.rules_dict[target].strategy:
                     try:
                         r1.pack()
                         ev1["target_still_verified"] = True
